@@ -72,7 +72,7 @@ ONLY = set(filter(None, os.environ.get("C11_ONLY", "").split(",")))
 
 
 def budget(tier):
-    return dict(examples=4000 if tier == "quick" else 40000, shards=16)
+    return dict(examples=8000 if tier == "quick" else 40000, shards=16)
 
 
 # =========================================================================================== generator
